@@ -772,8 +772,10 @@ func writeCompatibilitySerializers(w *formatting.IndentedWriter, change dsl.Defi
 			for i, field := range p.Fields {
 				tmpVarName := common.FieldIdentifierName(field.Name)
 				// The temporary for a removed or converted field must not hide the parameters of the serializer
+				// nor collide with the loop variables of an element-wise conversion
 				localVarName := tmpVarName
-				if localVarName == "value" || localVarName == "stream" {
+				switch localVarName {
+				case "value", "stream", "i", "item":
 					localVarName += "_tmp"
 				}
 				if change.FieldRemoved[i] {
